@@ -11,6 +11,8 @@ import (
 
 // nextSinkCalls: the first sink-reaching call on each path after `from` (by callee label); "<exit>" if a path
 // reaches a successful return without one. Error returns are ignored.
+var nextSinkDepth int
+
 func nextSinkCalls(p *Program, fn *ssa.Function, from ssa.Instruction, isSink func(ssa.CallInstruction) (bool, string), until ...ssa.Instruction) map[string]bool {
 	out := map[string]bool{}
 	seen := map[*ssa.BasicBlock]bool{}
@@ -25,6 +27,35 @@ func nextSinkCalls(p *Program, fn *ssa.Function, from ssa.Instruction, isSink fu
 			}
 			if ci, ok := in.(ssa.CallInstruction); ok {
 				if ok, _ := isSink(ci); ok {
+					// a transparent helper: what it writes first is what is written next; if it can return without
+					// writing, the walk goes on behind the call
+					if g := ci.Common().StaticCallee(); g != nil && p.transparent(g) && g != fn && nextSinkDepth < 3 {
+						nextSinkDepth++
+						inner := nextSinkCalls(p, g, g.Blocks[0].Instrs[0], isSink)
+						// the first instruction itself is not examined by the walk above; check it
+						if c0, ok := g.Blocks[0].Instrs[0].(ssa.CallInstruction); ok {
+							if ok, _ := isSink(c0); ok {
+								nm := calleeRepoName(c0)
+								if nm == "" {
+									nm = trimPkg(staticCalleeName(c0.Common()))
+								}
+								inner = map[string]bool{nm: true}
+							}
+						}
+						nextSinkDepth--
+						passThrough := false
+						for n := range inner {
+							if n == "<exit>" {
+								passThrough = true
+							} else {
+								out[n] = true
+							}
+						}
+						if !passThrough {
+							return
+						}
+						continue
+					}
 					name := calleeRepoName(ci)
 					if name == "" {
 						name = trimPkg(staticCalleeName(ci.Common()))
@@ -370,11 +401,29 @@ func checkSnapshot(p *Program, r *Result, fn *ssa.Function, val ssa.Value, what 
 			continue
 		}
 		sc := sizeCallOf(v)
+		var next map[string]bool
+		if sc == nil {
+			// the snapshot may be taken at the end of a transparent helper that returns it (e.g. "end the data section and
+			// tell me where the summary starts"): what is written next is what follows the Size() call inside the helper
+			// and, once the helper returns, what follows its call
+			if hsc, site := helperSnapshot(p, v); hsc != nil {
+				next = nextSinkCalls(p, hsc.Parent(), hsc, isSink)
+				if next["<exit>"] {
+					delete(next, "<exit>")
+					for n := range nextSinkCalls(p, site.Parent(), site, isSink, until...) {
+						next[n] = true
+					}
+				}
+				sc = hsc
+			}
+		}
 		if sc == nil {
 			okAll, detail = false, "value "+valueLabel(v)+" is not a position snapshot (Size())"
 			continue
 		}
-		next := nextSinkCalls(p, sc.Parent(), sc, isSink, until...)
+		if next == nil {
+			next = nextSinkCalls(p, sc.Parent(), sc, isSink, until...)
+		}
 		for n := range next {
 			found := false
 			for _, a := range allowed {
@@ -452,38 +501,21 @@ func checkFlush(p *Program, r *Result) {
 		r.undecided("C05.d", "mcap.Writer.flushActiveChunk", "anchor", "", "not found")
 		return
 	}
-	// the flush may be split into helper methods (seal/reset): the rules look at flushActiveChunk and the Writer
-	// methods it calls directly, except the record writers
-	region := []*ssa.Function{fn}
-	for _, ci := range callsIn(fn, func(ssa.CallInstruction) bool { return true }) {
-		if f := ci.Common().StaticCallee(); f != nil && p.isRepoFunc(f) && f.Blocks != nil && f.Signature.Recv() != nil &&
-			strings.HasPrefix(funcName(f), "mcap.Writer.") && !strings.HasPrefix(f.Name(), "Write") {
-			region = append(region, f)
-		}
-	}
-	capFn := fn // the function that captures CRC/size/bytes
-	for _, f := range region {
-		if len(callsIn(f, func(ci ssa.CallInstruction) bool { return calleeRepoName(ci) == "mcap.countingCRCWriter.CRC" })) > 0 {
-			capFn = f
-		}
-	}
+	// the flush may be split into helper methods (seal/reset/take): the rules look at flushActiveChunk with calls to
+	// unexported helpers replaced by the helpers' own calls, and at stores anywhere in that region
+	region := regionOf(p, fn, 3)
 	fname := funcName(fn)
-	calls := orderedCalls(p, capFn)
+	calls := deepCalls(p, fn, 3)
 	fnOrig := fn
-	fn = capFn
-	idx := func(name string, recvSuffix string) int {
-		for i, c := range calls {
-			if c.name == name && (recvSuffix == "" || strings.HasSuffix(c.recv, recvSuffix)) {
-				return i
-			}
-		}
-		return -1
-	}
 	type pair struct{ a, b, what string }
+	if af := accumulatorFacts(p, "countingCRCWriter"); af != nil {
+		checkCapturedBeforeReset(p, r, "C05.d", fn, af, af.crcField, "UncompressedCRC", "chunk CRC read before it is reset")
+		checkCapturedBeforeReset(p, r, "C05.d", fn, af, af.sizeField, "UncompressedSize", "uncompressed size read before it is reset")
+	} else {
+		r.undecided("C05.d", fname, "chunk writer accumulators", p.pos(fn.Pos()), "countingCRCWriter.Write does not update a size and a CRC field in a recognised way")
+	}
 	for _, pr := range []pair{
 		{"mcap.countingCRCWriter.Close", "Buffer.Bytes", "compressor closed before the compressed bytes are taken"},
-		{"mcap.countingCRCWriter.CRC", "mcap.countingCRCWriter.ResetCRC", "chunk CRC read before it is reset"},
-		{"mcap.countingCRCWriter.Size", "mcap.countingCRCWriter.ResetSize", "uncompressed size read before it is reset"},
 		{"Buffer.Bytes", "Buffer.Reset", "compressed bytes taken before the buffer is reset"},
 	} {
 		ia, ib := -1, -1
@@ -502,8 +534,8 @@ func checkFlush(p *Program, r *Result) {
 				if c.name == pr.a && (ib < 0 || i < ib) {
 					// must be the one whose value is stored in Chunk.UncompressedSize
 					if call, ok := c.in.(*ssa.Call); ok {
-						for _, st := range fieldStores(fn, "Chunk", "UncompressedSize") {
-							if stripConv(st.Val) == ssa.Value(call) {
+						for _, st := range regionStores(region, "Chunk", "UncompressedSize") {
+							if flowsFromCall(st.Val, call, region) {
 								ia = i
 							}
 						}
@@ -514,13 +546,12 @@ func checkFlush(p *Program, r *Result) {
 		switch {
 		case ia < 0 || ib < 0:
 			r.violated("C05.d", fname, pr.what, p.pos(fn.Pos()), "one of the two operations is missing from flushActiveChunk")
-		case ia < ib && instrDominates(calls[ia].in, calls[ib].in):
+		case ia < ib && deepDominates(calls[ia], calls[ib]):
 			r.held("C05.d", fname, pr.what, p.pos(calls[ia].in.Pos()), "in this order on every path")
 		default:
 			r.violated("C05.d", fname, pr.what, p.pos(calls[ib].in.Pos()), "the value is reset before it is captured for the chunk header")
 		}
 	}
-	_ = idx
 	countGuarded := func(b *ssa.BasicBlock) bool {
 		for d := b; d != nil; d = d.Idom() {
 			if iff, isIf := d.Instrs[len(d.Instrs)-1].(*ssa.If); isIf && d != b {
@@ -533,7 +564,7 @@ func checkFlush(p *Program, r *Result) {
 	}
 	// chunk times: running values when the chunk has messages, the constant 0 otherwise
 	for _, tf := range [][2]string{{"MessageStartTime", "currentChunkStartTime"}, {"MessageEndTime", "currentChunkEndTime"}} {
-		stores := fieldStores(fn, "Chunk", tf[0])
+		stores := regionStores(region, "Chunk", tf[0])
 		// form 2: zero by default (literal / explicit 0) and the running value assigned under the message-count test
 		if len(stores) >= 1 {
 			allOK, sawRun := true, false
@@ -816,4 +847,43 @@ func checkWriteRecordCount(p *Program, r *Result) {
 	default:
 		r.held("C05.w", funcName(fn), "returned byte count", p.pos(fn.Pos()), "sum of the counts of all writes")
 	}
+}
+
+// helperSnapshot: v is (a component of) the result of a transparent helper all of whose successful returns hand back a
+// Size() snapshot taken inside it; returns that Size() call and the helper's call site.
+func helperSnapshot(p *Program, v ssa.Value) (*ssa.Call, *ssa.Call) {
+	v = stripConv(v)
+	idx := 0
+	if ex, ok := v.(*ssa.Extract); ok {
+		idx = ex.Index
+		v = ex.Tuple
+	}
+	site, ok := v.(*ssa.Call)
+	if !ok {
+		return nil, nil
+	}
+	g := site.Call.StaticCallee()
+	if g == nil || !p.transparent(g) {
+		return nil, nil
+	}
+	var found *ssa.Call
+	for _, in := range instrsOf(g) {
+		ret, ok := in.(*ssa.Return)
+		if !ok || idx >= len(ret.Results) {
+			continue
+		}
+		n := len(ret.Results)
+		if n > 0 && isErrorType(g.Signature.Results().At(n-1).Type()) && !isNilConst(ret.Results[n-1]) && errKnownNonNil(ret, ret.Results[n-1]) {
+			continue // error return: the value is not used
+		}
+		if c, isC := stripConv(ret.Results[idx]).(*ssa.Const); isC && c.Value != nil && n > 1 && !isNilConst(ret.Results[n-1]) {
+			continue // `return 0, err`
+		}
+		sc := sizeCallOf(ret.Results[idx])
+		if sc == nil || (found != nil && found != sc) {
+			return nil, nil
+		}
+		found = sc
+	}
+	return found, site
 }
